@@ -101,7 +101,7 @@ Section Struct.
     cbn [bind] in *. injection E2 as <-. subst r. simpl. auto.
   Qed.
 
-  (* ---------------- C11: comparison opcodes *)
+  (* ---------------- C11: comparisons *)
   Theorem ne_is_not_eq a b : qne N tbl res keys a b = negb (qeq N tbl res keys a b).
   Proof. reflexivity. Qed.
 
@@ -119,10 +119,9 @@ Section Struct.
   Definition is_eq c := match c with Eq => true | _ => false end.
   Definition is_gt c := match c with Gt => true | _ => false end.
 
-  (* <, ==, > all use the same one-sided conversion of the right operand:
-     when the ordering is defined, exactly one of them holds *)
+  (* <, ==, > are all read off the same symmetric comparison: when it is defined,
+     exactly one of them holds *)
   Theorem trichotomy_struct a b c :
-    (forall x y, n_eqb N x y = match n_cmp N x y with Some Eq => true | _ => false end) ->
     pcmp N tbl res keys a b = OOk c ->
     vm_cmp N tbl res keys CLt a b = Ok (is_lt c)
     /\ qeq N tbl res keys a b = is_eq c
@@ -130,10 +129,63 @@ Section Struct.
     /\ vm_cmp N tbl res keys CLe a b = Ok (negb (is_gt c))
     /\ vm_cmp N tbl res keys CGe a b = Ok (negb (is_lt c)).
   Proof.
-    intros Heq H. unfold vm_cmp. rewrite H. unfold qeq. unfold pcmp in H.
+    intros H. unfold vm_cmp. rewrite H. unfold qeq. unfold pcmp in H.
     destruct (_ || _); [discriminate|].
-    destruct (convert_to N tbl res keys b (q_unit a)) as [b'|]; [|discriminate].
-    rewrite Heq. destruct (n_cmp N (q_val a) (q_val b')) as [c0|]; [|discriminate].
+    destruct (sym_cmp N tbl res keys a b) as [[c0|]|]; try discriminate.
     injection H as <-. destruct c0; repeat split; reflexivity.
+  Qed.
+
+  (* ---- order independence, for any number type whose partial_cmp is antisymmetric *)
+  Definition opp_o (o : option comparison) : option comparison := option_map CompOpp o.
+  Definition cmp_antisym_law : Prop := forall x y, n_cmp N y x = opp_o (n_cmp N x y).
+
+  Lemma cmp_eqb_opp c1 c2 : cmp_eqb (CompOpp c1) (CompOpp c2) = cmp_eqb c2 c1.
+  Proof. destruct c1, c2; reflexivity. Qed.
+
+  Theorem sym_cmp_swap a b : cmp_antisym_law ->
+    sym_cmp N tbl res keys b a
+    = match sym_cmp N tbl res keys a b with Ok o => Ok (opp_o o) | Err e => Err e end.
+  Proof.
+    intros L. unfold sym_cmp.
+    destruct (convert_to N tbl res keys a (q_unit b)) as [a'|ea] eqn:Ca;
+      destruct (convert_to N tbl res keys b (q_unit a)) as [b'|eb] eqn:Cb.
+    - rewrite (L (q_val a') (q_val b)), (L (q_val a) (q_val b')).
+      destruct (n_cmp N (q_val a') (q_val b)) as [c2|]; destruct (n_cmp N (q_val a) (q_val b')) as [c1|];
+        simpl; try reflexivity.
+      rewrite cmp_eqb_opp. destruct c1, c2; reflexivity.
+    - rewrite (L (q_val a') (q_val b)).
+      destruct (n_cmp N (q_val a') (q_val b)) as [c2|]; reflexivity.
+    - rewrite (L (q_val a) (q_val b')).
+      destruct (n_cmp N (q_val a) (q_val b')) as [c1|]; reflexivity.
+    - reflexivity.
+  Qed.
+
+  (* a == b iff b == a *)
+  Theorem qeq_sym a b : cmp_antisym_law -> qeq N tbl res keys a b = qeq N tbl res keys b a.
+  Proof.
+    intros L. unfold qeq. rewrite (sym_cmp_swap a b L).
+    destruct (sym_cmp N tbl res keys a b) as [[[]|]|]; reflexivity.
+  Qed.
+
+  Definition flip_ord (o : qordering) : qordering :=
+    match o with OOk c => OOk (CompOpp c) | x => x end.
+
+  Theorem pcmp_swap a b : cmp_antisym_law ->
+    pcmp N tbl res keys b a = flip_ord (pcmp N tbl res keys a b).
+  Proof.
+    intros L. unfold pcmp. rewrite (orb_comm (n_is_nan N (q_val b))).
+    destruct (_ || _); [reflexivity|]. rewrite (sym_cmp_swap a b L).
+    destruct (sym_cmp N tbl res keys a b) as [[c|]|]; reflexivity.
+  Qed.
+
+  Definition flip (op : cmpop) : cmpop :=
+    match op with CLt => CGt | CGt => CLt | CLe => CGe | CGe => CLe end.
+
+  (* a < b iff b > a, a <= b iff b >= a — as results, errors included *)
+  Theorem vm_cmp_flip op a b : cmp_antisym_law ->
+    vm_cmp N tbl res keys (flip op) b a = vm_cmp N tbl res keys op a b.
+  Proof.
+    intros L. unfold vm_cmp. rewrite (pcmp_swap a b L).
+    destruct (pcmp N tbl res keys a b) as [| |[]|]; destruct op; reflexivity.
   Qed.
 End Struct.
